@@ -57,6 +57,7 @@ class Contract:
         self.timeout = kw.pop('timeout', None)
         self.split = _lst(kw.pop('split', []))             # case split of the precondition (coverage is an obligation)
         self.skip = kw.pop('skip', None)                 # reason: contract drafted but not part of the checks (listed in evidence)
+        self.globals_read = dict(kw.pop('globals_read', {}) or {})   # expression text (e.g. 'MathArray._negative_powers') -> name of a symbolic entry value
         self.global_dicts = _lst(kw.pop('global_dicts', []))   # module-level dict objects the function reads (allocated before entry)
         self.consts = kw.pop('consts', {})               # module-level sentinel names -> description
         self.merge = kw.pop('merge', True)                # join straight-line if-branches into one state
